@@ -308,7 +308,7 @@ void VSMAIN(uint vid : SV_VertexID, float3 pos : POSITION, out float4 o_pos : SV
 float4 PSMAIN(float4 pos : SV_Position, float2 uv : TEXCOORD, float4 col : COLOR, VA v) : SV_Target0 {
     return g_input.Sample(g_sampler, uv) + g_input.Sample(g_sampler2, uv) * col * v.wet + float4(v.nrm, 1.0);
 }
-Pipeline G { VertexShader = VSMAIN; PixelShader = PSMAIN; RenderTargetFormat0 = R8G8B8A8_UNORM; }
+Pipeline G { VertexShader = VSMAIN; PixelShader = PSMAIN; RenderTargetFormat0 = "R8G8B8A8_UNORM"; }
 "#,
     );
     add(
